@@ -54,7 +54,10 @@ func (c *InternalCron) ScheduleEvent(ctx *core.Context, se *ScheduledEvent) erro
 		if loc == nil {
 			return errors.New("no location in ctx")
 		}
-		fr, err := loc.ProcessEvent(ctx, event)
+		// Every run gets its own context.  The caller might use
+		// the given one for other requests (to other locations),
+		// and jobs run concurrently.
+		fr, err := loc.ProcessEvent(ctx.SubContext(), event)
 		if err != nil {
 			return err
 		}
